@@ -25,11 +25,19 @@ collide.  Whether a route delivers the *intended* bits is C08's business: the re
 derived from the bits the objects themselves report, and a deviation from the intended bits is
 only counted in the evidence (`route_bits_differ_from_intended`).
 
-Known genuine defect (mechanism of C08): a file-backed object created with offset 0 and a `length`
-shorter than the file keeps the whole mapped buffer; `BitStore.__eq__` compares the raw buffers, so
-the object is != to its own bits and == to the whole file.  Its mismatches carry the narrow input
-class `file-length<filesize` (keys `C13|eq|file-length<filesize|false-for-equal-bits` and
-`C13|eq|file-length<filesize|true-for-different-bits`, plus the set/list consequences).
+Mechanism keys: `C13|<op>|<input class>|<shape>` with op in eq, ne, hash, set, dict, list-membership,
+eq/ne/hash-after-pos-move, construct; input class = store class of the pair (memory | file |
+file-length<filesize), `len<=2000` / `len>2000` / `mutable-class` for hash-related checks,
+`promotable:<str|bytes-like|file-like|iterable|bitarray>`, `non-promotable:<type category>`,
+`invalid-token-str`; operand cases prefix the shape with the operand order (obj-left / obj-right).
+
+Known genuine defect (mechanism of C08): a Bits / ConstBitStream created with filename=, offset 0 and a
+`length` shorter than the file keeps the whole mapped buffer; `BitStore.__eq__` compares the raw
+buffers, so the object is != to its own bits and == to the whole file.  Its mismatches carry the narrow
+input class `file-length<filesize`: `C13|eq|file-length<filesize|false-for-equal-bits` and
+`C13|eq|file-length<filesize|true-for-different-bits` (container checks are skipped for a pair whose
+== is already reported, so the defect produces no other key).  For BitArray / BitStream the same
+constructor yields the whole file's bits (C08's business); the observed-bits oracle follows that.
 """
 from __future__ import annotations
 
